@@ -6,10 +6,10 @@ from vlib import core
 from harness import wsgen, wsrun, wsoracle
 
 PROP = "C02"
-PROOF_MODULES = ["Abverif.Proofs.Lemmas.HeaderTable", "Abverif.Proofs.C02", "Abverif.Proofs.Lemmas.WsFrame", "Abverif.Proofs.Lemmas.WsExt", "Abverif.Proofs.Lemmas.WsSeg", "Abverif.Proofs.Lemmas.WsSeg2", "Abverif.Proofs.Lemmas.WsData", "Abverif.Proofs.WsSegmentation", "Abverif.Proofs.Lemmas.WsJudge", "Abverif.Proofs.Lemmas.WsJudge2", "Abverif.Proofs.WsRefinement", "Abverif.Proofs.Lemmas.WsEncode", "Abverif.Proofs.WsRoundtrip", "Abverif.Proofs.C05", "Abverif.Proofs.WsReach", "Abverif.Proofs.WsJudgeProps", "Abverif.Proofs.WsPingPong", "Abverif.Proofs.WsUtf8Bridge"]
+PROOF_MODULES = ["Abverif.Proofs.Lemmas.HeaderTable", "Abverif.Proofs.C02", "Abverif.Proofs.Lemmas.WsFrame", "Abverif.Proofs.Lemmas.WsExt", "Abverif.Proofs.Lemmas.WsSeg", "Abverif.Proofs.Lemmas.WsSeg2", "Abverif.Proofs.Lemmas.WsData", "Abverif.Proofs.WsSegmentation", "Abverif.Proofs.Lemmas.WsJudge", "Abverif.Proofs.Lemmas.WsJudge2", "Abverif.Proofs.WsRefinement", "Abverif.Proofs.Lemmas.WsEncode", "Abverif.Proofs.WsRoundtrip", "Abverif.Proofs.C05", "Abverif.Proofs.WsReach", "Abverif.Proofs.WsJudgeProps", "Abverif.Proofs.WsPingPong", "Abverif.Proofs.WsUtf8Bridge", "Abverif.Proofs.WsFailByClose"]
 MANIFEST_ENTRY = {
     "technique": 'Lean 4 theorems (kernel-checked header table over all 65 536 first-two-octet values x 32 contexts, length and close-code rules) + exhaustive header sweep and generated streams against the RFC judge',
-    "text": 'Proved: header_table - in every receiver context the processData cascade flags a header iff RFC 6455 5.2-5.5 / RFC 7692 6 forbid it (flags_table by decide +kernel, lifted to all octet pairs); extended-length rules; close-code rule = RFC 7.4 (against the code list). The receive model is compared read-by-read with real protocol objects (both frameworks); the real code is compared with the whole-stream Spec judge (WsSpec.judge) on every header pair in 32 contexts (thorough: all 65 536; quick: stratified) and on near-valid frame sequences under 9 segmentations each, incl. cuts after octet 1/2/3 of every header. Proved (Proofs/WsRefinement.lean): recv_refines_judge - a freshly opened endpoint (failByDrop=True) fed any octet stream in any non-empty reads ends in the state the frame-by-frame RFC 6455 judge WsSpec.judge prescribes for the whole stream: the delivered messages/pings/pongs are exactly the judge events (recv_events), the connection is OPEN iff the verdict is ok, failed-and-dropped iff it is fail, and a legal peer close frame is taken in (code, reason, clean close, server drops, client waits) and whatever follows it is discarded (after the repair 25c063cd of the data-after-close defect this holds for both roles without side condition); by induction over frames with an abstraction relation (Rel) between engine state and judge state, per-frame lemmas for header (processHeader_run + header_table), payload incl. unmasking and incremental UTF-8 (payload_refines), limits (overLimit_eq), ping/pong/close (control_refines). Proved (Proofs/WsJudgeProps.lean): judge_events_ok - for every octet stream every event the judge lets through is legal (message within the size limit, uncompressed text valid UTF-8, ping/pong at most 125 octets, close code legal and reason valid UTF-8 of at most 123 octets), transferred to the engine for every stream and segmentation: delivered_events_ok, delivered_text_valid, delivered_ping_short. Proved (Proofs/WsSegmentation.lean): segmentation_independent - for failByDrop=True (the default) any two ways of cutting one octet stream into non-empty reads leave the engine in the same state, or both runs closed the connection with the same history (same events delivered, same octets written, same drop); the proof is by a loop lemma over processData (drain_seg), payload compositionality incl. incremental UTF-8 and unmasking (consume_append), header prefix-stability (processHeader_seg) and termination of the while loop (drain_fuel: the fuel of the model loop is never exhausted); LiveWF is an invariant of EVERY operation (step_LiveWF, run_LiveWF in Proofs/WsReach.lean: API calls, timers, loss, reads), so segmentation_independent_reachable holds in every state reachable from a fresh connection by any history. For failByDrop=False segmentation independence is false of the code (known finding F6) and is not claimed. Each ping is answered with a pong carrying the same payload: ping_answered_same_payload (Proofs/WsPingPong.lean) - on an OPEN connection handling a ping of at most 125 octets (all the engine ever delivers: delivered_ping_short) tells the application and produces exactly one frame, opcode 10, with that payload, appended to the octets produced so far; what a judge reads back from it is judgeStep_encodeFrame. The 1002/1007 announcement of fail-by-close is compared on the real code only (no refinement theorem for failByDrop off: open finding F6). The UTF-8 automaton shared by engine and judge (utf8Valid) is the RFC 3629 grammar of C09: utf8Valid_iff_WF (Proofs/WsUtf8Bridge.lean; the two automata agree state by state for all 256 octets, then dfa_accepts_iff_WF), so delivered_text_valid is about RFC 3629 strings.',
+    "text": 'Proved: header_table - in every receiver context the processData cascade flags a header iff RFC 6455 5.2-5.5 / RFC 7692 6 forbid it (flags_table by decide +kernel, lifted to all octet pairs); extended-length rules; close-code rule = RFC 7.4 (against the code list). The receive model is compared read-by-read with real protocol objects (both frameworks); the real code is compared with the whole-stream Spec judge (WsSpec.judge) on every header pair in 32 contexts (thorough: all 65 536; quick: stratified) and on near-valid frame sequences under 9 segmentations each, incl. cuts after octet 1/2/3 of every header. Proved (Proofs/WsRefinement.lean): recv_refines_judge - a freshly opened endpoint (failByDrop=True) fed any octet stream in any non-empty reads ends in the state the frame-by-frame RFC 6455 judge WsSpec.judge prescribes for the whole stream: the delivered messages/pings/pongs are exactly the judge events (recv_events), the connection is OPEN iff the verdict is ok, failed-and-dropped iff it is fail, and a legal peer close frame is taken in (code, reason, clean close, server drops, client waits) and whatever follows it is discarded (after the repair 25c063cd of the data-after-close defect this holds for both roles without side condition); by induction over frames with an abstraction relation (Rel) between engine state and judge state, per-frame lemmas for header (processHeader_run + header_table), payload incl. unmasking and incremental UTF-8 (payload_refines), limits (overLimit_eq), ping/pong/close (control_refines). Proved (Proofs/WsJudgeProps.lean): judge_events_ok - for every octet stream every event the judge lets through is legal (message within the size limit, uncompressed text valid UTF-8, ping/pong at most 125 octets, close code legal and reason valid UTF-8 of at most 123 octets), transferred to the engine for every stream and segmentation: delivered_events_ok, delivered_text_valid, delivered_ping_short. Proved (Proofs/WsSegmentation.lean): segmentation_independent - for failByDrop=True (the default) any two ways of cutting one octet stream into non-empty reads leave the engine in the same state, or both runs closed the connection with the same history (same events delivered, same octets written, same drop); the proof is by a loop lemma over processData (drain_seg), payload compositionality incl. incremental UTF-8 and unmasking (consume_append), header prefix-stability (processHeader_seg) and termination of the while loop (drain_fuel: the fuel of the model loop is never exhausted); LiveWF is an invariant of EVERY operation (step_LiveWF, run_LiveWF in Proofs/WsReach.lean: API calls, timers, loss, reads), so segmentation_independent_reachable holds in every state reachable from a fresh connection by any history. For failByDrop=False segmentation independence is false of the code (known finding F6) and is not claimed. Each ping is answered with a pong carrying the same payload: ping_answered_same_payload (Proofs/WsPingPong.lean) - on an OPEN connection handling a ping of at most 125 octets (all the engine ever delivers: delivered_ping_short) tells the application and produces exactly one frame, opcode 10, with that payload, appended to the octets produced so far; what a judge reads back from it is judgeStep_encodeFrame. What failing means is proved at the function every violation goes through (Proofs/WsFailByClose.lean): with failByDrop off an OPEN connection records exactly one close frame with the status code of the violation (1002 protocol, 1007 payload) and no reason and becomes CLOSING (fail_by_close_announces), with failByDrop on nothing is sent and the connection is dropped with abort and unclean (fail_by_drop_drops), a second violation while CLOSING drops (second_violation_drops); there is no whole-stream refinement theorem for failByDrop off (open finding F6). The UTF-8 automaton shared by engine and judge (utf8Valid) is the RFC 3629 grammar of C09: utf8Valid_iff_WF (Proofs/WsUtf8Bridge.lean; the two automata agree state by state for all 256 octets, then dfa_accepts_iff_WF), so delivered_text_valid is about RFC 3629 strings.',
     "note": 'Trusted: Lean kernel; model tied by differential execution; the Spec judge is hand-written from the RFC; UTF-8 validator itself is C09 (pure-Python validator selected here).',
 }
 TRUSTED = [
